@@ -18,8 +18,9 @@ import (
 	"fmt"
 	"net/http"
 
+	"k8s.io/apimachinery/pkg/api/errors"
 	"k8s.io/apimachinery/pkg/runtime"
-	genericapifilters "k8s.io/apiserver/pkg/endpoints/filters"
+	"k8s.io/apimachinery/pkg/runtime/schema"
 	"k8s.io/apiserver/pkg/endpoints/handlers/responsewriters"
 	genericapirequest "k8s.io/apiserver/pkg/endpoints/request"
 
@@ -58,4 +59,19 @@ func WithImpersonator(handler http.Handler) http.Handler {
 	})
 }
 
-var WithRequestInfo = genericapifilters.WithRequestInfo
+// WithRequestInfo attaches a RequestInfo to the context. The generic filter of
+// k8s.io/apiserver answers a path it can not parse ("/api/v1/proxy") with a
+// plain text 500; a request the gateway terminates is answered with a Status
+// object like every other, and a path that can not be parsed is the client's
+// mistake, not an internal error.
+func WithRequestInfo(handler http.Handler, resolver genericapirequest.RequestInfoResolver, s runtime.NegotiatedSerializer) http.Handler {
+	return http.HandlerFunc(func(w http.ResponseWriter, req *http.Request) {
+		info, err := resolver.NewRequestInfo(req)
+		if err != nil {
+			responsewriters.ErrorNegotiated(errors.NewBadRequest(fmt.Sprintf("failed to create RequestInfo: %v", err)), s, schema.GroupVersion{Version: "v1"}, w, req)
+			return
+		}
+		req = req.WithContext(genericapirequest.WithRequestInfo(req.Context(), info))
+		handler.ServeHTTP(w, req)
+	})
+}
